@@ -83,6 +83,7 @@ def variants(res, rnd):
 
 
 ACASES = []
+RTOL = 1e-10  # relative tolerance on densities of two conventions
 AHEADER = ("From Coq Require Import Reals.\nFrom Interval Require Import Tactic.\nFrom TFV Require Import Rot.DHom Amp.CascadeTie.\nOpen Scope R_scope.\n")
 
 
@@ -232,7 +233,7 @@ def run_base(ctx, rnd, tag, res, top, fin, weak, M0, mf, cases, nev, dopts=None,
             for e in range(nev):
                 b = float(base[key][e])
                 cases.append(("V_%s_%s_%s_e%d" % (tag, vname.replace("+", "_"), frame, e),
-                              "(Rabs (%s - %s) <= %s)%%R" % (Rq(float(dens[e])), Rq(b), Rq(1e-8 * abs(b))), "interval with (i_prec 90)",
+                              "(Rabs (%s - %s) <= %s)%%R" % (Rq(float(dens[e])), Rq(b), Rq(RTOL * abs(b))), "interval with (i_prec 90)",
                               dict(meta0, layer="convention_invariance", event=e, density=float(dens[e]), base_density=b, base_config=base[key + "_cfg"])))
                 ctx.distinct.add((tag, vname, frame, e))
 
@@ -293,12 +294,102 @@ def known_reproducers(ctx):
                                 "events": {k: v.tolist() for k, v in p4.items()}, "densities": [vals[0].tolist(), vals[1].tolist()]})
 
 
+def _pair_cases(ctx, cases, tag, vname, cfg_a, cfg_b, p4, nev, frame="rest", site=None, fingerprint=None, open_finding=False):
+    """density of cfg_b against cfg_a (same parameters by name, same events): one certified comparison per event; with
+    open_finding the comparison is made here and a deviation is reported under the given site / fingerprint"""
+    from tf_pwa.config_loader import ConfigLoader
+    pars = None; vals = []
+    for c in (cfg_a, cfg_b):
+        config = ConfigLoader(copy.deepcopy(c)); amp = config.get_amplitude()
+        if pars is None:
+            pars = ampkit.random_params(amp, random.Random(5))
+        assert set(amp.get_params()) == set(pars), "the two conventions must have the same parameters by name"
+        amp.set_params(pars)
+        vals.append(np.array(amp(config.data.cal_angle(p4))))
+        ctx.evaluations += nev
+    ctx.count("pinned:" + tag + ":" + vname)
+    ev = {k: v.tolist() for k, v in p4.items()}
+    if open_finding:
+        dev = float(np.abs(vals[1] / vals[0] - 1).max())
+        ctx.count("known_reproducer:%s:%s" % (fingerprint, "fails" if dev > 1e-6 else "passes"))
+        if dev > 1e-6:
+            ctx.fail("convention_invariance", "known_" + fingerprint, "density depends on the convention: rel. deviation %.3g" % dev, site=site, fingerprint=fingerprint,
+                     failing_input={"base_config": cfg_a, "variant_config": cfg_b, "variant": vname, "params": pars, "events": ev,
+                                    "densities": [vals[0].tolist(), vals[1].tolist()]})
+        return
+    for e in range(nev):
+        a, b = float(vals[0][e]), float(vals[1][e])
+        meta = {"config": cfg_b, "base_config": cfg_a, "params": {k: float(v) for k, v in pars.items()}, "events": ev, "variant": vname, "frame": frame,
+                "layer": "convention_invariance", "event": e, "density": b, "base_density": a}
+        if site:
+            meta["site"] = site; meta["fingerprint"] = fingerprint
+        cases.append(("P_%s_%s_e%d" % (tag, vname, e), "(Rabs (%s - %s) <= %s)%%R" % (Rq(b), Rq(a), Rq(RTOL * abs(a))), "interval with (i_prec 90)", meta))
+        ctx.distinct.add((tag, vname, frame, e))
+
+
+def pinned_scenarios(ctx, cases):
+    """fixed configurations outside the three-body generator"""
+    nev = 2 if ctx.tier == "quick" else 5
+    # (1) the ORDER OF A RESONANCE LIST permutes the chain list: A -> X E, X(2+) -> R_BC D, R_BC: [Y1, Y2] against [Y2, Y1].
+    #     X -> Y1 D has l_min = 0, X -> Y2 D has l_min = 1: the running width of X must not take its l from the first declared decay
+    pb = {"p_break": True}
+    m4 = {"B": 0.94, "C": 0.78, "D": 0.5, "E": 0.14}
+
+    def cfg_list(order):
+        return {"data": {"dat_order": ["B", "C", "D", "E"]},
+                "decay": {"A": [["X", "E", pb]], "X": [["R_BC", "D", pb]], "R_BC": [["B", "C", pb]]},
+                "particle": {"$top": {"A": {"J": "1/2", "P": 1, "mass": 4.0}},
+                             "$finals": {"B": {"J": "1/2", "P": 1, "mass": m4["B"]}, "C": {"J": 1, "P": 1, "mass": m4["C"]},
+                                         "D": {"J": "1/2", "P": 1, "mass": m4["D"]}, "E": {"J": "1/2", "P": 1, "mass": m4["E"]}},
+                             "X": {"J": 2, "P": 1, "mass": 3.2, "width": 0.3}, "R_BC": list(order),
+                             "Y1": {"J": "3/2", "P": -1, "mass": 2.0, "width": 0.2}, "Y2": {"J": "1/2", "P": 1, "mass": 2.2, "width": 0.2}}}
+    p4 = ampkit.gen_tree_events(((("B", "C"), "D"), "E"), m4, 4.0, nev, 11)
+    _pair_cases(ctx, cases, "reslist", "resonance_list_reversed", cfg_list(["Y1", "Y2"]), cfg_list(["Y2", "Y1"]), p4, nev)
+
+    # self-conjugate final states (data option cp_particles: the CP image of the amplitude is added)
+    mcp = {"B": 0.139, "C": 0.139, "D": 3.0}
+
+    def cfg_cp(**dopts):
+        return {"data": dict({"dat_order": ["B", "C", "D"], "cp_particles": [["B", "C"]]}, **dopts),
+                "decay": {"A": [["Zp", "C"], ["D", "rho"], ["Zm", "B"]], "Zp": ["B", "D"], "Zm": ["C", "D"], "rho": ["B", "C", {"c_break": False}]},
+                "particle": {"$top": {"A": {"J": 1, "P": -1, "C": -1, "mass": 4.6}},
+                             "$finals": {"B": {"J": 0, "P": -1, "mass": mcp["B"]}, "C": {"J": 0, "P": -1, "mass": mcp["C"]},
+                                         "D": {"J": 1, "P": -1, "C": -1, "mass": mcp["D"]}},
+                             "Zp": {"J": 1, "P": 1, "mass": 3.9, "width": 0.05}, "Zm": {"J": 1, "P": 1, "mass": 3.9, "width": 0.05},
+                             "rho": {"J": 0, "P": 1, "C": 1, "mass": 0.9, "width": 0.3}}}
+    p4 = ampkit.gen_events(4.6, mcp, nev, 13)
+    # (2) alignment to the parent rest frame against the first chain, parent at rest, fixed z axis
+    _pair_cases(ctx, cases, "cp", "align_center_mass", cfg_cp(random_z=False), cfg_cp(random_z=False, align_ref="center_mass"), p4, nev)
+    # (3) OPEN finding: z axis along a moving parent against the fixed z axis (DecayGroup.get_amp3 reverses the parent's spin index too,
+    #     cp_swap_p negates the momenta in the lab frame)
+    p4m = ampkit.lorentz_transform(p4, boost=np.array([0.3, -0.2, 0.5]))
+    _pair_cases(ctx, cases, "cp", "random_z_off", cfg_cp(), cfg_cp(random_z=False), p4m, nev, frame="moving",
+                site="tf_pwa cp_particles: choice of the z axis / center_mass with a moving parent", fingerprint="cp_particles_parent_axis", open_finding=True)
+
+    # (4) chain order with cp_particles when the CP partner chain is not declared (it is generated by the symmetrisation): spin-1/2 CP partners
+    mpp = {"B": 0.938, "C": 0.938, "D": 0.78}
+
+    def cfg_cp2(order):
+        dec = {"R_BD": ["R_BD", "C"], "R_BC": ["R_BC", "D"]}
+        return {"data": {"dat_order": ["B", "C", "D"], "cp_particles": [["B", "C"]], "random_z": False},
+                "decay": {"A": [dec[k] for k in order], "R_BD": ["B", "D"], "R_BC": ["B", "C"]},
+                "particle": {"$top": {"A": {"J": 1, "P": -1, "mass": 3.1}},
+                             "$finals": {"B": {"J": "1/2", "P": 1, "mass": mpp["B"]}, "C": {"J": "1/2", "P": 1, "mass": mpp["C"]},
+                                         "D": {"J": 1, "P": -1, "C": -1, "mass": mpp["D"]}},
+                             "R_BD": {"J": "3/2", "P": -1, "mass": 1.9, "width": 0.1}, "R_BC": {"J": 1, "P": 1, "mass": 2.0, "width": 0.2}}}
+    p4 = ampkit.gen_events(3.1, mpp, nev, 17)
+    _pair_cases(ctx, cases, "cp", "chain_order_partner_undeclared", cfg_cp2(["R_BD", "R_BC"]), cfg_cp2(["R_BC", "R_BD"]), p4, nev,
+                site="tf_pwa cp_particles with the CP partner chain not declared", fingerprint="cp_partner_chain_undeclared")
+
+
 def search(ctx, fails):
     for f in fails:
         m = f.get("input") or {}
         if m.get("layer") == "alignment" and m["su2_mismatch"] > 1e-8:
             return {k: m[k] for k in m if k != "layer"}
-        if m.get("layer") == "convention_invariance" and abs(m["density"] - m["base_density"]) > 1e-8 * abs(m["base_density"]):
+        if m.get("layer") == "massless_alignment" and abs(m["aligned"][1]) > 1e-6:
+            return dict({k: m[k] for k in m if k != "layer"}, expected="beta = 0: the alignment of a massless particle is a rotation about its momentum")
+        if m.get("layer") == "convention_invariance" and abs(m["density"] - m["base_density"]) > RTOL * abs(m["base_density"]):
             return {"base_config": m["base_config"], "variant_config": m["config"], "variant": m["variant"], "frame": m["frame"], "params": m["params"],
                     "events": m["events"], "event": m["event"], "density_variant": m["density"], "density_base": m["base_density"]}
     return c03.search(ctx, fails)
@@ -317,6 +408,7 @@ def run(ctx):
         run_base(ctx, rnd, tag, res, top, fin, weak, M0, mf, cases, nev, dopts=(rest[0] if rest else None), fextra=(rest[1] if len(rest) > 1 else None))
         ctx.sample({"config_tag": tag, "resonances": res, "top": top, "finals": fin})
     known_reproducers(ctx)
+    pinned_scenarios(ctx, cases)
     for c in cases[:: max(1, len(cases) // 4)]:
         ctx.sample({"case": c[0], "goal": c[1][:300], "layer": c[3].get("layer")}, cap=10)
     res_ = common.coq_cases(ctx, "c02", HEADER, [c[:3] for c in cases], per_file=10, case_timeout=60)
@@ -325,10 +417,10 @@ def run(ctx):
     for cid, stmt, tac, meta in cases:
         if res_[cid] != "OK":
             ctx.fail(meta["layer"], cid, "layer %s does not check (%s)" % (meta["layer"], res_[cid]), inp=meta,
-                     site="convention:" + meta.get("variant", ""), fingerprint=meta["layer"])
+                     site=meta.get("site") or "convention:" + meta.get("variant", ""), fingerprint=meta.get("fingerprint") or meta["layer"])
     return common.finish(ctx, search=search, technique=TECHNIQUE, extra_assumptions=[
         "that a change of reference IS one common D matrix is a theorem of the model (C02_reference_change_is_common_matrix, from the group law D(UV)=D(U)D(V), all j); that the CODE's Euler angles of two conventions differ by one common rotation is decided by the certified comparison of the code under the conventions",
-        "rtol 1e-8 on densities"])
+        "rtol 1e-10 on densities; |beta| <= 1e-6 for the alignment of a massless particle"])
 
 
 def replay(rep):
